@@ -39,10 +39,10 @@ Proof.
   rewrite Hz. set (z := if s then Z.neg m else Z.pos m).
   destruct e as [|q|q].
   - rewrite Q2R_inject_Z. cbn [bpow]. ring.
-  - rewrite Q2R_inject_Z, mult_IZR. f_equal. rewrite <- (IZR_Zpower radix2) by lia. reflexivity.
+  - rewrite Q2R_inject_Z, mult_IZR. f_equal; try (symmetry; apply (IZR_Zpower radix2); lia).
   - unfold Q2R. cbn [Qnum Qden]. f_equal.
     change (Z.neg q) with (- Z.pos q)%Z. rewrite bpow_opp. f_equal.
-    rewrite <- (IZR_Zpower radix2) by lia. f_equal. rewrite Pos2Z.inj_pow. reflexivity.
+    rewrite Pos2Z.inj_pow. apply (IZR_Zpower radix2). lia.
 Qed.
 
 Definition cellQ (c : fcell) : cell := mkCell (F2Q (fcx c)) (F2Q (fcy c)) (F2Q (fchw c)) (F2Q (fchh c)).
@@ -83,6 +83,9 @@ Proof.
   - apply H. apply K. reflexivity.
 Qed.
 
+Lemma Q2R_half : Q2R (1#2) = (/ 2)%R.
+Proof. unfold Q2R. cbn [Qnum Qden]. lra. Qed.
+
 Lemma Q2R_eq : forall a b : Q, Q2R a = Q2R b -> a == b.
 Proof. intros a b H. apply eqR_Qeq. exact H. Qed.
 
@@ -98,12 +101,16 @@ Proof.
   destruct (swc_val (cellQ c)) as (S1 & S2 & S3 & S4).
   destruct (sec_val (cellQ c)) as (T1 & T2 & T3 & T4).
   assert (Hhalf : forall a b : Q, (Q2R a = Q2R b / 2)%R -> a == (1#2) * b).
-  { intros a b H. apply Q2R_eq. rewrite Q2R_mult. rewrite H. unfold Q2R at 2. cbn [Qnum Qden]. lra. }
+  { intros a b H. apply Q2R_eq. rewrite Q2R_mult, Q2R_half. rewrite H. lra. }
   assert (Hm : forall a b c' : Q, (Q2R a = Q2R b - Q2R c' / 2)%R -> a == b - (1#2) * c').
-  { intros a b c' H. apply Q2R_eq. rewrite Q2R_minus, Q2R_mult. rewrite H. unfold Q2R at 3. cbn [Qnum Qden]. lra. }
+  { intros a b c' H. apply Q2R_eq. rewrite Q2R_minus, Q2R_mult, Q2R_half. rewrite H. lra. }
   assert (Hp : forall a b c' : Q, (Q2R a = Q2R b + Q2R c' / 2)%R -> a == b + (1#2) * c').
-  { intros a b c' H. apply Q2R_eq. rewrite Q2R_plus, Q2R_mult. rewrite H. unfold Q2R at 3. cbn [Qnum Qden]. lra. }
-  rewrite <- !F2Q_R in A1, A2, A3, A4, A5, A6.
+  { intros a b c' H. apply Q2R_eq. rewrite Q2R_plus, Q2R_mult, Q2R_half. rewrite H. lra. }
+  revert A1 A2 A3 A4 A5 A6.
+  rewrite <- ?(F2Q_R (fchw c)), <- ?(F2Q_R (fchh c)), <- ?(F2Q_R (fcx c)), <- ?(F2Q_R (fcy c)),
+          <- ?(F2Q_R (fchw (fnwc c))), <- ?(F2Q_R (fchh (fnwc c))), <- ?(F2Q_R (fcx (fnwc c))), <- ?(F2Q_R (fcx (fnec c))),
+          <- ?(F2Q_R (fcy (fnwc c))), <- ?(F2Q_R (fcy (fswc c))).
+  intros A1 A2 A3 A4 A5 A6.
   apply Hhalf in A1, A2. apply Hm in A3, A5. apply Hp in A4, A6.
   unfold cell_eq. cbn [cellQ fnwc fnec fswc fsec fcx fcy fchw fchh cx cy chw chh] in *.
   rewrite N1, N2, N3, N4, E1, E2, E3, E4, S1, S2, S3, S4, T1, T2, T3, T4.
